@@ -46,7 +46,19 @@ NOT_YET = {}
 
 def main():
     checks = []
+    BIG = {"C01", "C02", "C03", "C04", "C05", "C06", "C15", "C16"}
+    SWEEP = {"C01", "C02", "C03", "C04", "C05", "C06", "C08"}
+    FUZZ = {"C01", "C02", "C03", "C05", "C06", "C08", "C10", "C12"}
     for pid, (tech, text, ref) in sorted(CHECKS.items()):
+        extra = []
+        if pid in BIG:
+            extra.append("large-scale cases (rings with adopted tails up to 8k quick / 120k thorough objects, payload with and without drop glue) under the same oracle")
+        if pid in SWEEP:
+            extra.append("thorough: exhaustive small-scope sweep of 1.95M histories over all adoption multigraphs on <= 3 objects")
+        if pid in FUZZ:
+            extra.append("thorough: coverage-guided libFuzzer+ASan campaign over the same interpreter and judge, artifacts re-judged by the fork executor")
+        if extra:
+            text = text + " Also: " + "; ".join(extra) + "."
         checks.append({
             "property_id": pid,
             "quick_cmd": f"./check {pid} --tier quick",
@@ -54,7 +66,7 @@ def main():
             "evidence_file": f"/verif/evidence/{pid}.json",
             "replay_cmd_template": f"./check {pid} --replay {{path}}",
             "engine": "cxcheck",
-            "level_claimed": {"category": "exploration", "text": text, "design_ref": f"DESIGN.md section {ref}"},
+            "level_claimed": {"category": "exploration", "text": text, "design_ref": f"DESIGN.md section {ref} and section 10"},
             "level_note": LEVEL_NOTE,
             "technique": tech,
         })
